@@ -3,7 +3,7 @@ import vpcore as v
 from vprun import Run
 import framing_common as fc
 
-SWEEPS = ["attr", "ext", "nlri", "cap", "open", "ex"]
+SWEEPS = ["attr", "ext", "nlri", "cap", "open", "openinner", "ex"]
 
 
 def main(run: Run):
